@@ -97,6 +97,25 @@ def run(prop, tier, seed):
             c.extra["beyond_property_error_message_mismatches"] = len(notes)
             for n in notes[:3]:
                 print("NOTE (beyond C04, not a violation): exception text differs from ParserMachine.tla: %s" % n[:300])
+            # beyond the property: step-level traces of the constructor pipeline (sys.settrace, nothing added to the repository)
+            # validated action by action against Pipeline.tla; rejections are notes, never violations (a refactoring may rename steps)
+            sub = strings[:: max(1, len(strings) // (1500 if not big else 20000))]
+            pitems = [{"ver": ver, "s": esc(s)} for s in sub for ver in "234"]
+            ptr = record_events(pitems, work, name="pipe", script="pipeline.py")
+            pp = os.path.join(work, "pipeline.json")
+            json.dump(ptr, open(pp, "w"), separators=(",", ":"))
+            r = tlc_or_die("TracePipeline", cfg="TracePipeline.cfg", env={"TRACE_FILE": pp}, timeout=3600)
+            c.add_tlc("TracePipeline: %d step-level constructor traces against Pipeline.tla" % len(ptr), r)
+            acc = set(int(l.split()[1]) for l in r.lines if l.startswith("ACC "))
+            rej = [l for l in r.lines if l.startswith("REJ ") and int(l.split()[1]) not in acc]
+            c.extra["beyond_property_pipeline_traces"] = len(ptr)
+            c.extra["beyond_property_pipeline_traces_rejected"] = len(set(l.split()[1] for l in rej))
+            if len(acc) + len(set(l.split()[1] for l in rej)) != len(ptr):
+                raise MachineryError("TracePipeline gave no verdict for some traces")
+            for l in rej[:3]:
+                t = ptr[int(l.split()[1]) - 1]
+                print("NOTE (beyond C04, not a violation): constructor step trace rejected by Pipeline.tla: %s on CVSS%s(%s)" % (l, t["ver"], t["s"][:120]))
+            os.remove(pp)
             c.evaluations = len(ev)
             classes = {}
             for e in ev:
